@@ -209,8 +209,12 @@ static const int N_FEAT_COMBOS = (int)(sizeof FEAT_COMBOS / sizeof FEAT_COMBOS[0
 // repro). Until that is repaired the generator gives such scenarios a via point instead (the knob re-enables them).
 struct ScenKnobs { int maxBodies = 5; int maxStates = 36; long budget = 6000; bool cableSurfaceWithHandlers = false; };
 
+static long g_dumpStep = -1;   // investigation aid (--dumpstep K): print the raw vectors of returned step K of every run to stderr
+inline void dumpVec(const char* nm, const Vector& v) { fprintf(stderr, "    %-10s[%d]", nm, v.size()); for (int i = 0; i < v.size(); ++i) fprintf(stderr, " %.17g", (double)v[i]); fprintf(stderr, "\n"); }
+
 struct Scen {
     Model m;
+    uint64_t bSeed = 0; long bCyc = 0; int bInteg = -1;   // what build() was called with (replay: --scen-seed/--scen-cyc/--scen-integ)
     std::unique_ptr<ContactTrackerSubsystem> tracker; std::unique_ptr<CompliantContactSubsystem> compliant;
     std::unique_ptr<GeneralContactSubsystem> gcs;
     std::unique_ptr<CableTrackerSubsystem> cables; std::vector<std::unique_ptr<CablePath>> paths;
@@ -221,6 +225,7 @@ struct Scen {
     double T = 0.5; int nReports = 4, maxStates = 36; bool reportAll = true; int driver = 0;  // 0 TimeStepper, 1 manual loop
     long budget = 6000;
     int nForces = 0;
+    std::string elems;   // what was added besides the tree (constraint / motion kinds and bodies), for witnesses
 
     struct Probe { std::vector<int> nq, nu, q0, u0; std::vector<Transform> X; Vector q, u; };
     Probe pr;
@@ -235,11 +240,14 @@ struct Scen {
     }
     int pickBody(Rng& r, bool allowGround) { int nb = (int)m.bodies.size(); return allowGround ? r.integer(-1, nb - 1) : r.integer(0, nb - 1); }
     int pickOther(Rng& r, int a) { int nb = (int)m.bodies.size(); for (int k = 0; k < 8; ++k) { int b = r.integer(-1, nb - 1); if (b != a) return b; } return a < 0 ? 0 : -1; }
+    // a body whose q's are its u's integrated (nq == nu > 0): MobilityLinearSpring/Stop document that they need qdot == u
+    int pickBodyQeqU(Rng& r) { int nb = (int)m.bodies.size(); for (int k = 0; k < 12; ++k) { int b = r.integer(0, nb - 1); if (pr.nu[b] > 0 && pr.nq[b] == pr.nu[b]) return b; } for (int b = 0; b < nb; ++b) if (pr.nu[b] > 0 && pr.nq[b] == pr.nu[b]) return b; return -1; }
     int pickBodyWithU(Rng& r) { int nb = (int)m.bodies.size(); for (int k = 0; k < 12; ++k) { int b = r.integer(0, nb - 1); if (pr.nu[b] > 0) return b; } for (int b = 0; b < nb; ++b) if (pr.nu[b] > 0) return b; return -1; }
 
     // <seed, cyc> -> definition. cyc selects <integrator, feature combination> deterministically (all pairs are
     // visited over 10*13 consecutive values); forceInteg >= 0 overrides the integrator (noise scenarios).
     void build(uint64_t seed, long cyc, const ScenKnobs& kn, int forceInteg = -1) {
+        bSeed = seed; bCyc = cyc; bInteg = forceInteg;
         Rng r(seed);
         feats = FEAT_COMBOS[cyc % N_FEAT_COMBOS];
         io.kind = forceInteg >= 0 ? forceInteg : (int)(cyc % IK_Count);
@@ -266,9 +274,9 @@ struct Scen {
             switch (kind) {
             case 0: Force::TwoPointLinearSpring(m.forces, B(a), randVec3(r, .5), B(b), randVec3(r, .5), r.uni(1, 60), r.uni(0, 1)); break;
             case 1: Force::TwoPointLinearDamper(m.forces, B(a), randVec3(r, .5), B(b), randVec3(r, .5), r.uni(0.1, 3)); break;
-            case 2: { int c = pickBodyWithU(r); if (c < 0 || pr.nq[c] == 0) continue; Force::MobilityLinearSpring(m.forces, B(c), MobilizerQIndex(r.integer(0, pr.nq[c] - 1)), r.uni(1, 40), r.sym(1)); } break;
+            case 2: { int c = pickBodyQeqU(r); if (c < 0) continue; Force::MobilityLinearSpring(m.forces, B(c), MobilizerQIndex(r.integer(0, pr.nq[c] - 1)), r.uni(1, 40), r.sym(1)); } break;
             case 3: { int c = pickBodyWithU(r); if (c < 0) continue; Force::MobilityLinearDamper(m.forces, B(c), MobilizerUIndex(r.integer(0, pr.nu[c] - 1)), r.uni(0.1, 2)); } break;
-            case 4: { int c = pickBodyWithU(r); if (c < 0 || pr.nq[c] == 0) continue; int qi = r.integer(0, pr.nq[c] - 1); double q = pr.q[pr.q0[c] + qi];
+            case 4: { int c = pickBodyQeqU(r); if (c < 0) continue; int qi = r.integer(0, pr.nq[c] - 1); double q = pr.q[pr.q0[c] + qi];
                       Force::MobilityLinearStop(m.forces, B(c), MobilizerQIndex(qi), r.uni(50, 500), r.uni(0, 1), q - r.uni(0.02, 0.5), q + r.uni(0.02, 0.5)); } break;
             case 5: { Vec6 k6, c6; for (int i = 0; i < 6; ++i) { k6[i] = r.uni(1, 40); c6[i] = r.uni(0, 1); }
                       Force::LinearBushing(m.forces, B(a), randFrame(r, 2), B(b), randFrame(r, 2), k6, c6); } break;
@@ -289,14 +297,14 @@ struct Scen {
                 int a = pickBody(r, false), b = pickOther(r, a);
                 Transform Xa = XG(a), Xb = XG(b);
                 switch (kind) {
-                case 0: { Vec3 p1 = randVec3(r, .5), p2 = randVec3(r, .5); double d = ((Xb * p2) - (Xa * p1)).norm(); if (d < 0.05) continue; Constraint::Rod(B(a), p1, B(b), p2, d); } break;
-                case 1: { Vec3 p1 = randVec3(r, .5); Constraint::Ball(B(a), p1, B(b), ~Xb * (Xa * p1)); } break;
-                case 2: { UnitVec3 n = randUnit(r); Vec3 p2 = randVec3(r, .5); Vec3 pa = ~Xa * (Xb * p2); Constraint::PointInPlane(B(a), n, dot(Vec3(n), pa), B(b), p2); } break;
-                case 3: { int c = pickBodyWithU(r); if (c < 0) continue; int ui = r.integer(0, pr.nu[c] - 1); Constraint::ConstantSpeed(B(c), MobilizerUIndex(ui), pr.u[pr.u0[c] + ui]); } break;
-                case 4: { Transform X1 = randFrame(r, 2); Constraint::Weld(B(a), X1, B(b), ~Xb * (Xa * X1)); } break;
+                case 0: { Vec3 p1 = randVec3(r, .5), p2 = randVec3(r, .5); double d = ((Xb * p2) - (Xa * p1)).norm(); if (d < 0.05) continue; Constraint::Rod(B(a), p1, B(b), p2, d); elems += " Rod(" + std::to_string(a) + "," + std::to_string(b) + ")"; } break;
+                case 1: { Vec3 p1 = randVec3(r, .5); Constraint::Ball(B(a), p1, B(b), ~Xb * (Xa * p1)); elems += " Ball(" + std::to_string(a) + "," + std::to_string(b) + ")"; } break;
+                case 2: { UnitVec3 n = randUnit(r); Vec3 p2 = randVec3(r, .5); Vec3 pa = ~Xa * (Xb * p2); Constraint::PointInPlane(B(a), n, dot(Vec3(n), pa), B(b), p2); elems += " PointInPlane(" + std::to_string(a) + "," + std::to_string(b) + ")"; } break;
+                case 3: { int c = pickBodyWithU(r); if (c < 0) continue; int ui = r.integer(0, pr.nu[c] - 1); Constraint::ConstantSpeed(B(c), MobilizerUIndex(ui), pr.u[pr.u0[c] + ui]); elems += " ConstantSpeed(" + std::to_string(c) + ":u" + std::to_string(ui) + ")"; } break;
+                case 4: { Transform X1 = randFrame(r, 2); Constraint::Weld(B(a), X1, B(b), ~Xb * (Xa * X1)); elems += " WeldConstraint(" + std::to_string(a) + "," + std::to_string(b) + ")"; } break;
                 default: { UnitVec3 n = randUnit(r); Vec3 pl = randVec3(r, .5), p2 = randVec3(r, .5);
                            // PointOnLine through the current position of the follower point
-                           Vec3 pa = ~Xa * (Xb * p2); (void)pl; Constraint::PointOnLine(B(a), n, pa, B(b), p2); } break;
+                           Vec3 pa = ~Xa * (Xb * p2); (void)pl; Constraint::PointOnLine(B(a), n, pa, B(b), p2); elems += " PointOnLine(" + std::to_string(a) + "," + std::to_string(b) + ")"; } break;
                 }
             }
         }
@@ -310,6 +318,7 @@ struct Scen {
                 else if (lv == 1) Motion::Sinusoid(B(c), Motion::Velocity, r.uni(0.1, 1), r.uni(1, 8), r.sym(3));
                 else if (lv == 2) Motion::Sinusoid(B(c), Motion::Acceleration, r.uni(0.5, 3), r.uni(1, 8), r.sym(3));
                 else Motion::Steady(B(c), r.sym(2));
+                elems += std::string(" Motion:") + (lv == 0 ? "Sinusoid/Position" : lv == 1 ? "Sinusoid/Velocity" : lv == 2 ? "Sinusoid/Acceleration" : "Steady") + "(" + std::to_string(c) + ")";
                 break;
             }
         }
@@ -367,7 +376,7 @@ struct Scen {
         io.stepMode = r.coin(0.6) ? 0 : r.integer(1, 3); io.h = T / r.integer(8, 40);
         io.stepLimit = r.coin(0.3) ? r.integer(3, 25) : 0;
         reportAll = r.coin(0.6); driver = r.coin(0.35) ? 1 : 0;
-        descr = md.shortStr() + "| " + featKey + " | " + ikName(io.kind) + (driver ? " manual" : (reportAll ? " ts/all" : " ts"));
+        descr = md.shortStr() + "|" + elems + " | " + featKey + " | " + ikName(io.kind) + (driver ? " manual" : (reportAll ? " ts/all" : " ts"));
     }
 
     void buildContact(Rng& r) {
@@ -451,7 +460,7 @@ struct Scen {
         }
         CableSpring(m.forces, *paths.back(), r.uni(5, 200), std::max(0.01, L * r.uni(0.5, 1.2)), r.uni(0, 0.5));
     }
-    Json toJson() const { return Json::obj().set("model", descr).set("T", T).set("nReports", nReports).set("options", io.toJson()); }
+    Json toJson() const { char b[40]; snprintf(b, sizeof b, "%llu", (unsigned long long)bSeed); return Json::obj().set("model", descr).set("T", T).set("nReports", nReports).set("options", io.toJson()).set("scen_seed", std::string(b)).set("scen_cyc", bCyc).set("scen_integ", bInteg); }
 };
 
 // ------------------------------------------------------------------------------------------------ one incremental run
@@ -561,6 +570,11 @@ struct Run {
               hd.v(s.getQDot()); hd.v(s.getUDot()); hd.v(s.getZDot()); hd.v(s.getQDotDot());
               hm.v(s.getMultipliers()); hm.v(s.getQErr()); hm.v(s.getUErr()); hm.v(s.getUDotErr());
               finite = allFinite(s.getQ()) && allFinite(s.getU()) && allFinite(s.getUDot());
+              if (g_dumpStep == (long)traj.steps.size()) {
+                  fprintf(stderr, "  dump of returned step %ld (t=%.17g, status %d) [%s]\n", g_dumpStep, (double)s.getTime(), (int)st, sc.descr.c_str());
+                  dumpVec("q", s.getQ()); dumpVec("u", s.getU()); dumpVec("z", s.getZ()); dumpVec("qdot", s.getQDot()); dumpVec("udot", s.getUDot()); dumpVec("zdot", s.getZDot()); dumpVec("qdotdot", s.getQDotDot());
+                  dumpVec("lambda", s.getMultipliers()); dumpVec("qerr", s.getQErr()); dumpVec("uerr", s.getUErr()); dumpVec("udoterr", s.getUDotErr());
+              }
           } catch (const std::exception& e) { realized = false; hd.s(std::string("realize failed: ") + e.what()); }
           r.hDeriv = hd.h; r.hMult = hm.h; }
         { H64 h; try { h.i(integ->isStateInterpolated()); h.d(integ->getAdvancedTime()); h.d(integ->getPreviousStepSizeTaken()); h.d(integ->getPredictedNextStepSize());
